@@ -219,6 +219,24 @@ fn key_roundtrips_private(ctx: &mut Ctx, d: &BigUint, pt: &(BigUint, BigUint), w
             o => ctx.violation(&format!("from_pkcs8_der:reference-document:{}", oc(&o)), json!({"case": w, "with_public": with_pub})),
         }
     }
+    // a PKCS#8 document whose optional public-key field holds ANOTHER valid point: the decoder may refuse it, or decode
+    // the private key with its own public key [d]G; a key object that pairs d with the foreign point is not a key
+    // (its signatures verify under neither point's owner)
+    {
+        let other = r2::mul(&((d + 1u32) % (&r2::curve().n - 1u32) + 1u32), &r2::g()).unwrap();
+        let doc = der::pkcs8_encode(&r2::b32(d), Some(&r2::encode(&other, false)));
+        ctx.eval();
+        ctx.class("pkcs8_foreign_public_key");
+        match guard(|| Sm2PrivateKey::from_pkcs8_der(&doc)) {
+            Outcome::Ret(Err(_)) => ctx.class("pkcs8_foreign_public_key_refused"),
+            Outcome::Ret(Ok(s2)) => {
+                if r2::from_limbs(&s2.d) != *d || !same_pk(&s2.public_key, &pt) || !same_pk(&s2.to_public_key(), &pt) {
+                    ctx.violation("from_pkcs8_der:foreign-public-key:inconsistent-key-object", json!({"case": w, "doc": hex::encode(&doc)}));
+                }
+            }
+            o => ctx.violation(&format!("from_pkcs8_der:foreign-public-key:{}", oc(&o)), json!({"case": w})),
+        }
+    }
 }
 
 fn asn1_case(ctx: &mut Ctx, d: &BigUint, msg: &[u8], k: &BigUint, compressed: bool, order: Order, cls: &str) {
@@ -317,7 +335,7 @@ pub fn run(ctx: &mut Ctx) {
     for (n, ok) in r2::selftest() {
         ctx.selftest(&n, ok);
     }
-    ctx.require(&["edge_key", "random_key", "pub_coordinate_leading_zero_byte", "y_odd", "y_even", "pub_sec1", "pub_hex", "pub_spki", "priv_bytes", "priv_hex", "priv_pkcs8", "openssl_pkcs8", "openssl_spki", "openssl_sm2cipher", "asn1_encrypt", "asn1_decrypt", "asn1_zero_coord", "asn1_top_bit_set", "asn1_top_bit_clear", "reject_offcurve", "reject_coordinate_ge_p", "reject_coordinate_eq_p", "reject_wrong_length", "reject_wrong_pc_byte", "reject_priv_wrong_length", "key_from_gen_keypair", "key_with_jacobian_public_point", "crafted_pub_point"]);
+    ctx.require(&["edge_key", "random_key", "pub_coordinate_leading_zero_byte", "y_odd", "y_even", "pub_sec1", "pub_hex", "pub_spki", "priv_bytes", "priv_hex", "priv_pkcs8", "openssl_pkcs8", "openssl_spki", "openssl_sm2cipher", "asn1_encrypt", "asn1_decrypt", "asn1_zero_coord", "asn1_top_bit_set", "asn1_top_bit_clear", "reject_offcurve", "reject_coordinate_ge_p", "reject_coordinate_eq_p", "reject_wrong_length", "reject_wrong_pc_byte", "reject_priv_wrong_length", "key_from_gen_keypair", "key_with_jacobian_public_point", "crafted_pub_point", "pkcs8_foreign_public_key", "pub_point_with_zero_x"]);
     let c = r2::curve();
     // ---- key round trips
     let n = ctx.n(150, 6000);
@@ -357,6 +375,17 @@ pub fn run(ctx: &mut Ctx) {
                 if rep == 0 && idx == 1 {
                     ctx.sample(w);
                 }
+            }
+        }
+    }
+    // ---- the two curve points with x = 0, (0, +-sqrt(b)): 32 zero bytes as a coordinate
+    if ctx.mine(11) {
+        if let Some(y) = r2::sqrt_p(&c.b) {
+            for yy in [y.clone(), &c.p - &y] {
+                let pt = (BigUint::zero(), yy);
+                ctx.class("pub_point_with_zero_x");
+                let w = json!({"class": "x=0", "y": hex::encode(r2::b32(&pt.1))});
+                pub_roundtrips(ctx, &pt, &w);
             }
         }
     }
